@@ -4,7 +4,10 @@ import (
 	"fmt"
 	"go/ast"
 	"go/token"
+	"go/types"
 	"strings"
+
+	"golang.org/x/tools/go/cfg"
 
 	"verif/checker/core"
 )
@@ -96,5 +99,98 @@ func c04r6(rc *core.RC) {
 	}
 	if n < 2 {
 		rc.Unknown("decoder/map-value-slots", token.NoPos, "found %d valueDecoder calls in the map decoder (confirmed: 2)", n)
+	}
+}
+
+// ---- C04.R7 the set of struct types being compiled is a set of types being compiled ----
+
+// structCode of the encoder's compiler enters the struct type into c.structTypeToCode before it compiles the members
+// and takes a type found there for a reference back into a compilation that is still going on (the member becomes a
+// recursive jump, an embedded one is left out). That is right only while the entry is removed when the compilation of
+// the type is done: a type that merely occurs twice (struct{ Meta; Items []struct{ Meta; … } }) would otherwise lose
+// its second, embedded occurrence. Obligation: every path from the store into the map to a return without an error
+// passes delete(c.structTypeToCode, <the same key>).
+func c04r7(rc *core.RC) {
+	p := rc.P
+	fd := p.Func("encoder", "Compiler.structCode")
+	key := "encoder.(*Compiler).structCode/in-progress-entry-removed"
+	if fd == nil || fd.Body == nil {
+		rc.Unknown(key, token.NoPos, "structCode not found")
+		return
+	}
+	rc.Touch(p.FuncName(fd))
+	info := p.Info(fd)
+	cf := core.BuildCFGFor(fd, info)
+	isRegistry := func(e ast.Expr) bool {
+		f := core.FieldOf(info, core.Unparen(e))
+		return f != nil && f.Name() == "structTypeToCode"
+	}
+	var store *ast.AssignStmt
+	var storeKey string
+	var deletes []ast.Node
+	ast.Inspect(fd.Body, func(m ast.Node) bool {
+		switch x := m.(type) {
+		case *ast.AssignStmt:
+			if len(x.Lhs) == 1 {
+				if ix, ok := core.Unparen(x.Lhs[0]).(*ast.IndexExpr); ok && isRegistry(ix.X) && store == nil {
+					store, storeKey = x, types.ExprString(core.Unparen(ix.Index))
+				}
+			}
+		case *ast.CallExpr:
+			if core.IsBuiltin(info, x, "delete") && len(x.Args) == 2 && isRegistry(x.Args[0]) {
+				deletes = append(deletes, x)
+			}
+		}
+		return true
+	})
+	if store == nil {
+		rc.Unknown(key, fd.Pos(), "no store into c.structTypeToCode found in structCode")
+		return
+	}
+	sb, si := cf.BlockOf(store)
+	if sb == nil {
+		rc.Unknown(key, store.Pos(), "the store is in no block of the flow graph")
+		return
+	}
+	stop := map[*cfg.Block]bool{}
+	delAt := map[*cfg.Block]int{}
+	for _, d := range deletes {
+		call := d.(*ast.CallExpr)
+		if types.ExprString(core.Unparen(call.Args[1])) != storeKey {
+			continue
+		}
+		if b, i := cf.BlockOf(d); b != nil {
+			stop[b] = true
+			delAt[b] = i
+		}
+	}
+	free := cf.ReachableFrom(sb, stop)
+	var bad []string
+	for _, r := range cf.Returns() {
+		if cf.IsFailure(r) {
+			continue
+		}
+		rb, ri := cf.BlockOf(r)
+		if rb == nil || !free[rb] || (rb == sb && ri < si) {
+			continue // not reached from the store, or only through a block with the delete
+		}
+		bad = append(bad, p.Pos(r.Pos()))
+	}
+	// returns in blocks that are reached only through a delete block
+	through := 0
+	for b := range stop {
+		for rb := range cf.ReachableFrom(b, nil) {
+			if r := core.BlockReturn(rb); r != nil && !cf.IsFailure(r) {
+				through++
+			}
+		}
+	}
+	switch {
+	case len(bad) > 0:
+		rc.Bad(key, store.Pos(), "c.structTypeToCode[%s] is set when the compilation of the struct begins and is still set at the successful return at %s: every later occurrence of the type in the same compilation is taken for a reference back into a compilation in progress (an embedded one is left out, its members are not written)", storeKey, strings.Join(bad, ", "))
+	case through == 0:
+		rc.Unknown(key, store.Pos(), "no successful return behind delete(c.structTypeToCode, %s) found", storeKey)
+	default:
+		rc.OK(key, store.Pos(), "every path from c.structTypeToCode[%s] = … to a return without an error passes delete(c.structTypeToCode, %s) (%d return(s) behind it)", storeKey, storeKey, through)
 	}
 }
